@@ -694,6 +694,32 @@ impl Fixture {
 	}
 }
 
+impl Fixture {
+	/// `GET <path>` through a service whose HTTP middleware is `ProxyGetRequestLayer` mapping `/health` to `guard_probe`
+	pub async fn http_get_via_proxy(&self, path: &str) -> HttpResp {
+		use jsonrpsee_server::middleware::http::ProxyGetRequestLayer;
+		use tower::Service;
+		let layer = ProxyGetRequestLayer::new([("/health", "guard_probe")]).expect("valid path");
+		let mut svc = self.builder.clone().set_http_middleware(tower::ServiceBuilder::new().layer(layer)).build(self.methods.clone(), self.stop.clone());
+		let req = HttpReq { method: "GET".into(), headers: vec![], frames: vec![], content_length: false, uri: path.into() };
+		let request = match build_request(&req) {
+			Ok(r) => r,
+			Err(e) => return HttpResp { status: 0, body: e.into_bytes(), content_type: None },
+		};
+		let resp = match svc.call(request).await {
+			Ok(r) => r,
+			Err(e) => return HttpResp { status: 599, body: e.to_string().into_bytes(), content_type: None },
+		};
+		let status = resp.status().as_u16();
+		let content_type = resp.headers().get("content-type").and_then(|v| v.to_str().ok()).map(|s| s.to_string());
+		let body = match resp.into_body().collect().await {
+			Ok(c) => c.to_bytes().to_vec(),
+			Err(e) => e.to_string().into_bytes(),
+		};
+		HttpResp { status, body, content_type }
+	}
+}
+
 // ------------------------------------------------------------------------------------------------
 // an RPC middleware that gives up on a call when told to (what a per-call deadline does)
 // ------------------------------------------------------------------------------------------------
